@@ -29,13 +29,17 @@ Section Pipeline.
   | PAdmin                       (* 0xAD-prefixed admin command: handled by the peer, never reaches the pipeline *)
   | PGarbage                     (* command.Decode fails *)
   | PLegacy                      (* command.Decode says "not a command" *)
-  | PCmd (reqid : N) (c : cmd).  (* header.RequestId and the requests *)
+  | PCmd (region reqid : N) (c : cmd).  (* header.RegionId, header.RequestId and the requests *)
   Inductive ekind := ENormal | EConf.
   Record entry := { e_index : N; e_term : N; e_kind : ekind; e_data : payload }.
 
   Inductive result := ROk (r : resp) | RErr.
 
   (** * commandPipeline *)
+  (** [proposals] is a Go map keyed by the struct [proposalKey{region, id}] of two
+      uint64; the model keys an association list by the number
+      [region * 2^64 + id] (injective on uint64 pairs). *)
+  Definition pkey (region id : N) : N := region * 2^64 + id.
   Record pipe := { p_seq : N; p_props : list (N * W) }.
   Definition pipe_init : pipe := {| p_seq := 0; p_props := [] |}.
 
@@ -63,27 +67,33 @@ Section Pipeline.
     end.
 
   Inductive reg_out := RegOk | RegDup | RegNil.
-  (** [registerProposal] *)
-  Definition register (id : N) (w : W) (p : pipe) : reg_out * pipe :=
+  (** [registerRegionProposal] *)
+  Definition register (region id : N) (w : W) (p : pipe) : reg_out * pipe :=
     if id =? 0 then (RegNil, p)
-    else match lookup id (p_props p) with
+    else match lookup (pkey region id) (p_props p) with
          | Some _ => (RegDup, p)
-         | None => (RegOk, {| p_seq := p_seq p; p_props := (id, w) :: p_props p |})
+         | None => (RegOk, {| p_seq := p_seq p; p_props := (pkey region id, w) :: p_props p |})
          end.
-  (** [removeProposal] *)
-  Definition unregister (id : N) (p : pipe) : pipe :=
-    if id =? 0 then p else {| p_seq := p_seq p; p_props := remove id (p_props p) |}.
-  (** [completeProposal]: the waiter that receives the result, if any. *)
-  Definition complete (id : N) (p : pipe) : pipe * option W :=
+  (** [removeRegionProposal] *)
+  Definition unregister (region id : N) (p : pipe) : pipe :=
+    if id =? 0 then p else {| p_seq := p_seq p; p_props := remove (pkey region id) (p_props p) |}.
+  (** [completeRegionProposal]: the waiter that receives the result, if any. *)
+  Definition complete (region id : N) (p : pipe) : pipe * option W :=
     if id =? 0 then (p, None)
-    else match lookup id (p_props p) with
+    else match lookup (pkey region id) (p_props p) with
          | None => (p, None)
-         | Some w => ({| p_seq := p_seq p; p_props := remove id (p_props p) |}, Some w)
+         | Some w => ({| p_seq := p_seq p; p_props := remove (pkey region id) (p_props p) |}, Some w)
          end.
+
+  (** The same three before regions were part of the key (commit b93c45d):
+      the map was keyed by the request id alone. *)
+  Definition register_v1 (region id : N) (w : W) (p : pipe) : reg_out * pipe := register 0 id w p.
+  Definition unregister_v1 (region id : N) (p : pipe) : pipe := unregister 0 id p.
+  Definition complete_v1 (region id : N) (p : pipe) : pipe * option W := complete 0 id p.
 
   (** * One store incarnation *)
   (** What was handed to the applier, in order. *)
-  Record applied := { ap_index : N; ap_term : N; ap_reqid : N; ap_cmd : cmd; ap_res : result }.
+  Record applied := { ap_index : N; ap_term : N; ap_region : N; ap_reqid : N; ap_cmd : cmd; ap_res : result }.
   (** A completed proposal: the waiter, the entry whose application completed
       it and the result it was handed. *)
   Record completion := { k_w : W; k_by : applied }.
@@ -100,11 +110,11 @@ Section Pipeline.
 
   Inductive apply_out := AOk | AErrDecode | AErrLegacy | AErrApply.
 
-  Definition apply_one (e : entry) (id : N) (c : cmd) (s : store) : store * bool :=
+  Definition apply_one (e : entry) (region id : N) (c : cmd) (s : store) : store * bool :=
     let '(m', r) := applier (s_sm s) c in
     let res := match r with Some x => ROk x | None => RErr end in
-    let a := {| ap_index := e_index e; ap_term := e_term e; ap_reqid := id; ap_cmd := c; ap_res := res |} in
-    let '(p', ow) := complete id (s_pipe s) in
+    let a := {| ap_index := e_index e; ap_term := e_term e; ap_region := region; ap_reqid := id; ap_cmd := c; ap_res := res |} in
+    let '(p', ow) := complete region id (s_pipe s) in
     ({| s_pipe := p'; s_sm := m'; s_log := a :: s_log s;
         s_done := match ow with Some w => {| k_w := w; k_by := a |} :: s_done s | None => s_done s end;
         s_mark := s_mark s |},
@@ -123,8 +133,8 @@ Section Pipeline.
             | PAdmin => (s, AErrLegacy)          (* not reachable through handleReady *)
             | PGarbage => (s, AErrDecode)
             | PLegacy => (s, AErrLegacy)
-            | PCmd id c =>
-                let '(s', ok) := apply_one e id c s in
+            | PCmd region id c =>
+                let '(s', ok) := apply_one e region id c s in
                 if ok then apply_entries es' s' else (s', AErrApply)
             end
         end
@@ -165,14 +175,14 @@ Section Pipeline.
 
   (** [ProposeCommand] up to the point where it blocks. [given]: the
       RequestId the caller put in the header (0 = let the store choose). *)
-  Definition propose_command (nid : N -> pipe -> N * pipe) (v : vstatus) (given : N) (w : W) (s : store)
+  Definition propose_command (nid : N -> pipe -> N * pipe) (v : vstatus) (region given : N) (w : W) (s : store)
     : store * call_out :=
     match v with
     | VReject => (s, ORegionError)
     | VStatus false _ lead => (s, ONotLeader lead)
     | VStatus true term _ =>
         let '(id, p1) := if given =? 0 then nid term (s_pipe s) else (given, s_pipe s) in
-        let '(ro, p2) := register id w p1 in
+        let '(ro, p2) := register region id w p1 in
         let s' := {| s_pipe := p2; s_sm := s_sm s; s_log := s_log s; s_done := s_done s; s_mark := s_mark s |} in
         match ro with
         | RegOk => (s', OWaiting id)
@@ -216,13 +226,13 @@ Section Cluster.
 
   Inductive gevent :=
   | GStart (s : N)                                   (* store s restarts: new pipeline, log re-delivered later *)
-  | GPropose (s : N) (w : W) (c : cmd) (v : vstatus) (* ProposeCommand on s (header.RequestId = 0) *)
+  | GPropose (s region : N) (w : W) (c : cmd) (v : vstatus) (* ProposeCommand on s for a region (header.RequestId = 0) *)
   | GRead (s : N) (w : W) (v : vstatus)              (* ReadCommand on s reaches validateCommand *)
   | GDeliver (s : N) (es : list (entry cmd))         (* a Ready of s carries these committed entries *)
-  | GTimeout (s : N) (id : N).                       (* a waiter of s gives up: removeProposal *)
+  | GTimeout (s region id : N).                      (* a waiter of s gives up: removeRegionProposal *)
 
   (** A registered proposal. *)
-  Record proposal := { pr_store : N; pr_inc : N; pr_w : W; pr_id : N; pr_cmd : cmd; pr_term : N }.
+  Record proposal := { pr_store : N; pr_inc : N; pr_region : N; pr_w : W; pr_id : N; pr_cmd : cmd; pr_term : N }.
 
   Record gstate := {
     g_stores : N -> N * store cmd resp sm W;   (* store id -> (incarnation, state) *)
@@ -246,13 +256,13 @@ Section Cluster.
            ([s_done] is a history variable and is kept) *)
         let st' := {| s_pipe := pipe_init; s_sm := s_sm st; s_log := []; s_done := s_done st; s_mark := 0 |} in
         {| g_stores := gset s (inc + 1, st') (g_stores g); g_props := g_props g; g_outs := g_outs g |}
-    | GPropose s w c v =>
+    | GPropose s region w c v =>
         let '(inc, st) := get_store g s in
-        let '(st', out) := propose_command nid v 0 w st in
+        let '(st', out) := propose_command nid v region 0 w st in
         {| g_stores := gset s (inc, st') (g_stores g);
            g_props := match out, v with
                       | OWaiting id, VStatus _ term _ =>
-                          {| pr_store := s; pr_inc := inc; pr_w := w; pr_id := id; pr_cmd := c; pr_term := term |} :: g_props g
+                          {| pr_store := s; pr_inc := inc; pr_region := region; pr_w := w; pr_id := id; pr_cmd := c; pr_term := term |} :: g_props g
                       | _, _ => g_props g
                       end;
            g_outs := (w, out) :: g_outs g |}
@@ -264,9 +274,9 @@ Section Cluster.
         let '(inc, st) := get_store g s in
         let '(st', _) := handle_committed applier es st in
         {| g_stores := gset s (inc, st') (g_stores g); g_props := g_props g; g_outs := g_outs g |}
-    | GTimeout s id =>
+    | GTimeout s region id =>
         let '(inc, st) := get_store g s in
-        let st' := {| s_pipe := unregister id (s_pipe st); s_sm := s_sm st; s_log := s_log st;
+        let st' := {| s_pipe := unregister region id (s_pipe st); s_sm := s_sm st; s_log := s_log st;
                       s_done := s_done st; s_mark := s_mark st |} in
         {| g_stores := gset s (inc, st') (g_stores g); g_props := g_props g; g_outs := g_outs g |}
     end.
